@@ -71,7 +71,8 @@ type judge struct {
 	recent   []string
 	replay   func(sp *reqSpec) any
 	sampled  map[string]bool
-	flapping bool // the key configuration changes concurrently (no stable "configured" list)
+	flapping bool   // the key configuration changes concurrently (no stable "configured" list)
+	host     string // Host header override of the Origin/Host sub-table ("" = testHost)
 }
 
 func (j *judge) brief() worldBrief {
